@@ -409,6 +409,12 @@ class PEventListenerDispatcher(PDispatcher):
                 self.state_buffer = self.state_buffer[pos+1:] # rid LF
                 resultlen = result_line[self.RESULT_TOKEN_START_LEN:]
                 try:
+                    # the line must be exactly "RESULT " followed by decimal
+                    # digits; a negative length would never be satisfied
+                    if not result_line.startswith(self.RESULT_TOKEN_START):
+                        raise ValueError(result_line)
+                    if not resultlen.isdigit():
+                        raise ValueError(result_line)
                     self.resultlen = int(resultlen)
                 except ValueError:
                     try:
